@@ -129,7 +129,9 @@ func c19GoodField(t *rapid.T, dt storage.DataType, sep string) (string, c19Val) 
 		l := strings.ToLower(sp)
 		return sp, c19Bool(l == "1" || l == "true" || l == "t")
 	}
-	s := rapid.SampledFrom([]string{"", "a", "hello world", "x" + sep + "y", `say "hi"`, "line1\nline2", " padded ", "日本", "N", "\\n", "1", "true", `"`, sep, "a,b;c|d"}).Draw(t, "str")
+	s := rapid.SampledFrom([]string{"", "a", "hello world", "x" + sep + "y", `say "hi"`, "line1\nline2", " padded ", "日本", "N", "\\n", "1", "true", `"`, sep, "a,b;c|d",
+		// bytes that are not UTF-8 (a Latin-1 export, a stray byte): strings are byte strings
+		"caf\xe9", "\xff\xfe", "\xc3", "na\xefve \x80", "\xed\xa0\x80"}).Draw(t, "str")
 	return s, c19Str(s)
 }
 
